@@ -1220,6 +1220,14 @@ def _b_dict(interp, c, args, kw):
     return d
 
 
+def _b_dict_fromkeys(interp, c, args, kw):
+    d = PDict()
+    val = args[1] if len(args) > 1 else None
+    for k in interp.iterate(args[0]):
+        dict_setitem(interp, d, k, val)
+    return d
+
+
 def _sort_key(interp, x):
     if isinstance(x, tuple) and x:
         return _sort_key(interp, x[0])
@@ -1537,6 +1545,7 @@ def _re(fn):
 _BUILTINS = {
     're.escape': _b_re_escape, 're.finditer': _b_re_finditer,
     're.search': _re('re_search'), 're.match': _re('re_match'), 're.fullmatch': _re('re_fullmatch'),
+    'dict.fromkeys': _b_dict_fromkeys,
     'len': _b_len, 'isinstance': _b_isinstance, 'hasattr': _b_hasattr, 'getattr': _b_getattr, 'str': _b_str,
     'repr': _b_repr, 'int': _b_int, 'bool': _b_bool, 'list': _b_list, 'tuple': _b_tuple, 'dict': _b_dict,
     'sorted': _b_sorted, 'reversed': _b_reversed, 'range': _b_range, 'enumerate': _b_enumerate, 'zip': _b_zip,
@@ -1616,6 +1625,9 @@ def str_method(interp, recv, name, args, kwargs):
         r = hook(interp, recv, args, kwargs)
         if r is not NotImplemented:
             return r
+    exact = _exact_char_classes(interp, recv, name, args, kwargs)
+    if exact is not NotImplemented:
+        return exact
     if name in ('split', 'rsplit'):
         sep = args[0] if args else kwargs.get('sep')
         mx = args[1] if len(args) > 1 else kwargs.get('maxsplit', -1)
@@ -1731,6 +1743,77 @@ def str_method(interp, recv, name, args, kwargs):
     raise Unsupported('str.%s on symbolic string' % name)
 
 
+LINEBREAK_CPS = (10, 11, 12, 13, 28, 29, 30, 133, 8232, 8233)
+
+
+def _exact_char_classes(interp, recv, name, args, kwargs):
+    """splitlines / split(None) / rsplit(None) / isspace on a string of concrete length with symbolic characters.  The
+    result of these methods depends only on the class of each character (line break '\\n', '\\r', other line break,
+    other whitespace, anything else), so the path forks on the class of each character and CPython's own method is run
+    on a representative string to obtain the piece boundaries."""
+    if name not in ('splitlines', 'split', 'rsplit', 'isspace') or not is_str(recv):
+        return NotImplemented
+    cps = sym.s_chars(recv)
+    if cps is None:
+        return NotImplemented
+    c = ctx()
+    if name in ('split', 'rsplit'):
+        sep = args[0] if args else kwargs.get('sep')
+        mx = args[1] if len(args) > 1 else kwargs.get('maxsplit', -1)
+        if sep is not None:
+            return NotImplemented
+        if is_z3(mx):
+            raise Unsupported('symbolic maxsplit on a character string')
+    rep = []
+    for cp in cps:
+        if not is_z3(cp) and not isinstance(cp, sym.SymInt):
+            ch = chr(cp)
+            rep.append(ch if (ch.isspace() or cp in LINEBREAK_CPS) else 'a')
+            continue
+        if name == 'splitlines':
+            if c.truth(i_cmp('==', cp, 10)):
+                rep.append('\n')
+            elif c.truth(i_cmp('==', cp, 13)):
+                rep.append('\r')
+            elif c.truth(b_or(*[i_cmp('==', cp, w) for w in LINEBREAK_CPS if w not in (10, 13)])):
+                rep.append('\x0b')
+            else:
+                rep.append('a')
+        else:
+            rep.append(' ' if c.truth(is_ws(cp)) else 'a')
+    rep = ''.join(rep)
+    if name == 'isspace':
+        return rep.isspace()
+    if name == 'splitlines':
+        keep = args[0] if args else kwargs.get('keepends', False)
+        if is_z3(keep):
+            keep = c.truth(keep)
+        full = rep.splitlines(True)
+        cut = rep.splitlines(bool(keep))
+        out, pos = [], 0
+        for f, p_ in zip(full, cut):
+            out.append(sym.s_from_chars(cps[pos:pos + len(p_)]))
+            pos += len(f)
+        return PList(out)
+    pieces = rep.split(None, mx) if name == 'split' else rep.rsplit(None, mx)
+    out = []
+    if name == 'split':
+        pos = 0
+        for p_ in pieces:
+            while pos < len(rep) and rep[pos] == ' ':
+                pos += 1
+            out.append(sym.s_from_chars(cps[pos:pos + len(p_)]))
+            pos += len(p_)
+    else:
+        pos = len(rep)
+        for p_ in reversed(pieces):
+            while pos > 0 and rep[pos - 1] == ' ':
+                pos -= 1
+            out.insert(0, sym.s_from_chars(cps[pos - len(p_):pos]))
+            pos -= len(p_)
+    return PList(out)
+
+
 def _exact_char_map(interp, recv, name, args):
     """upper / lower / replace(one char, one char) on ASCII strings of concrete length, character by character"""
     if name not in ('upper', 'lower', 'replace') or not is_str(recv):
@@ -1777,6 +1860,11 @@ def _exact_char_search(interp, recv, name, args):
     c = ctx()
     n, m = len(hay), len(pat)
     lo, hi, _ = slice(*(list(args[1:3]) + [None] * (2 - len(args[1:3])))).indices(n)
+    if len(args) > 1 and args[1] is not None and args[1] > n:
+        # CPython: a start beyond the end finds nothing, not even the empty pattern
+        if name in ('index', 'rindex'):
+            raise PyExc('ValueError', 'substring not found', True)
+        return {'find': -1, 'rfind': -1, 'count': 0}.get(name, False)
 
     def at(pos):
         return c.truth(b_and(*[i_cmp('==', hay[pos + k], pat[k]) for k in range(m)]))
